@@ -14,6 +14,7 @@
 From Coq Require Import ZArith List Bool.
 Import ListNotations.
 From V Require Import Base.Tree Base.Bytes C13.Model C13.Closers.
+From V Require C13.SendClose.
 Open Scope Z_scope.
 
 Definition fuel : nat := 4000.
@@ -399,6 +400,62 @@ Definition sp_window (i o : tree) : bool :=
   tree_eqb (t_nth 4 o) (TL [TI 1]) && (t_int (t_nth 5 o) =? 0) && (t_int (t_nth 6 o) =? 1) &&
   (t_int (t_nth 7 o) =? 1) && (t_int (t_nth 8 o) =? 1).
 
+(* ------------------------------------------------------------------ fn 13: Close during a SendPackage
+   input (kind closer ps npackets k mode peer ack obs)
+   output (close-parked close-returned close-code send-returned send-code message-writes (next send close) unregistered
+           transport-closed connclose-returned reader-ended)
+   The message needs npackets packets: SendPackage = QueuePackage (npackets-1 full packets under the read lock), then
+   SendRemainingPackets (read lock again, the last packet).  The k-th Write is held back by the transport, Close (closer 0)
+   or Conn.Close (closer 1) is started.  mode 1: Close is parked in Lock() before the Write is released; mode 0: the
+   Write is released at once, the observed send result obs tells which of the two orders the runtime chose. *)
+Definition cds_out (parked : bool) (closer : Z) (s : SendClose.st) : tree :=
+  let both := SendClose.sender_done s && SendClose.closer_done s in
+  let c := if SendClose.closed s then 2 else 0 in
+  TL [of_bool parked; of_bool (SendClose.closer_done s); TI (SendClose.closer_code s);
+      of_bool (SendClose.sender_done s); TI (SendClose.sender_code s); TI (Z.of_nat (SendClose.writes s));
+      (if both then TL [TI c; TI c; TI c] else TL []);
+      of_bool (SendClose.closed s); of_bool ((closer =? 1) && SendClose.closer_done s); of_bool both; of_bool both].
+
+Definition run_cds (i : tree) : tree :=
+  let closer := t_int (t_nth 1 i) in
+  let np := Z.to_nat (t_int (t_nth 3 i)) in
+  let k := Z.to_nat (t_int (t_nth 4 i)) in
+  let mode := t_int (t_nth 5 i) in
+  let obs := t_int (t_nth 8 i) in
+  let f := 64%nat in
+  (* the sender is inside the k-th Write *)
+  let s_hold := SendClose.run_sender f (SendClose.at_write k) (SendClose.init false (pred np) 1) in
+  (* Close runs as far as it gets (it parks in Lock() behind the sender's read lock), then the Write is released *)
+  let s_park := SendClose.run_closer f s_hold in
+  let closer_first := SendClose.alternate 4 f s_park in
+  let sender_first := SendClose.alternate 4 f s_hold in
+  if negb (SendClose.at_write k s_hold) then tbad
+  else if mode =? 1
+  then cds_out (match SendClose.kp s_park with SendClose.KLockAcq => true | _ => false end) closer closer_first
+  else if obs =? SendClose.sender_code sender_first then cds_out false closer sender_first
+  else if obs =? SendClose.sender_code closer_first then cds_out false closer closer_first
+  else tbad.
+
+(* From the property text: Close returns in bounded time (nil or an error list), SendPackage returns - with nil and the
+   whole message written, or with the closed condition (documented behaviour of the two sections: the first one was
+   completed, the last packet was not written), or, the connection being closed, with the context's / transport's error
+   and part of the message written; afterwards every call reports the closed condition, the channel is unregistered,
+   Conn.Close has closed the transport, and the reader ends with the connection. *)
+Definition sp_cds (i o : tree) : bool :=
+  let closer := t_int (t_nth 1 i) in
+  let np := t_int (t_nth 3 i) in
+  let k := t_int (t_nth 4 i) in
+  let sc := t_int (t_nth 4 o) in
+  let w := t_int (t_nth 5 o) in
+  (t_int (t_nth 1 o) =? 1) && ((t_int (t_nth 2 o) =? 0) || (t_int (t_nth 2 o) =? 1)) &&
+  (t_int (t_nth 3 o) =? 1) &&
+  (((sc =? 0) && (w =? np)) ||
+   ((sc =? 2) && (w =? np - 1) && (k <? np)) ||
+   ((closer =? 1) && ((sc =? 1) || (sc =? 4)) && (k <=? w) && (w <=? np))) &&
+  tree_eqb (t_nth 6 o) (TL [TI 2; TI 2; TI 2]) &&
+  (t_int (t_nth 7 o) =? 1) && ((closer =? 0) || (t_int (t_nth 8 o) =? 1)) &&
+  (t_int (t_nth 9 o) =? 1) && (t_int (t_nth 10 o) =? 1).
+
 (* ------------------------------------------------------------------ dispatch *)
 Definition run (fn : Z) (i : tree) : tree :=
   match fn with
@@ -414,6 +471,7 @@ Definition run (fn : Z) (i : tree) : tree :=
   | 10 => run_cclose i
   | 11 => run_late i
   | 12 => run_window i
+  | 13 => run_cds i
   | _ => tbad
   end.
 
@@ -431,5 +489,6 @@ Definition spec (fn : Z) (i o : tree) : bool :=
   | 10 => sp_cclose false i o
   | 11 => sp_late i o
   | 12 => sp_window i o
+  | 13 => sp_cds i o
   | _ => false
   end.
